@@ -3,6 +3,7 @@ import Fabio.Driver.RouteJson
 import Fabio.Model.Route
 import Fabio.Model.Parse
 import Fabio.Model.C05Spec
+import Fabio.Model.C05Glue
 /-!
 Driver handlers for C05. `agree` compares the model (`Model/Route.lean`, `Model/Parse.lean`) with the real code;
 `spec` evaluates the property's sentences on the implementation's own output: the table must be the one the
@@ -10,7 +11,7 @@ Driver handlers for C05. `agree` compares the model (`Model/Route.lean`, `Model/
 change it, no empty route or host may remain, and the rendered text must rebuild the table.
 -/
 namespace Fabio.Driver.C05
-open Lean Fabio.Driver Fabio.Driver.RouteJson Fabio.Model.Route Fabio.Model.Parse Fabio.Model.C05Spec
+open Lean Fabio.Driver Fabio.Driver.RouteJson Fabio.Model.Route Fabio.Model.Parse Fabio.Model.C05Spec Fabio.Model.C05Glue
 
 def errName : Err → String
   | .invalidPrefix => "invalidPrefix" | .invalidTarget => "invalidTarget" | .badURL => "badURL"
@@ -19,6 +20,31 @@ def errName : Err → String
 def synName : SynErr → String
   | .routeExpected => "routeExpected" | .addInvalid => "addInvalid" | .delInvalid => "delInvalid"
   | .weightInvalid => "weightInvalid" | .weightValue => "weightValue"
+
+def xerrName : XErr → String
+  | .invalidWeight => "invalidWeight"
+  | .table e => errName e
+
+def isNonFiniteStr (s : String) : Bool := s == "nan" || s == "inf" || s == "-inf"
+
+/-- a definition of a script: the weight is the exact rational of the float64, or "nan" / "inf" / "-inf" -/
+def wdefOf (j : Json) : Except String WDef := do
+  let cmd ← j.getObjValAs? String "cmd"
+  let (w, bad) ← match j.getObjVal? "weight" with
+    | .ok (.str s) =>
+      if isNonFiniteStr s then pure ((0 : Rat), true) else
+      match parseRat s with
+      | some r => pure (r, false)
+      | none => throw s!"bad weight {s}"
+    | _ => pure ((0 : Rat), false)
+  let tags ← strList ((j.getObjVal? "tags").toOption.getD .null)
+  let opts ← pairList ((j.getObjVal? "opts").toOption.getD .null)
+  return { d := { cmd := cmdOf cmd, service := getStrD j "service", src := getStrD j "src", dst := getStrD j "dst",
+                  weight := w, tags, opts }, bad }
+
+def wdefsOf (inp : Json) : Except String (List WDef) := do
+  let a ← inp.getObjValAs? (Array Json) "defs"
+  a.toList.mapM wdefOf
 
 def defsOf (inp : Json) : Except String (List RouteDef) := do
   let a ← inp.getObjValAs? (Array Json) "defs"
@@ -56,11 +82,19 @@ def loadJson : Except LoadErr Table → Json
   | .error e => Json.mkObj [("error", loadErrJson e)]
   | .ok t => Json.mkObj [("table", tableJson t)]
 
-def loadTag : Except LoadErr Table → String
+def loadErrWJson : LoadErrW → Json
+  | .parse e => parseErrJson e
+  | .cmd e => Json.mkObj [("kind", "table"), ("what", xerrName e)]
+
+def loadWJson : Except LoadErrW Table → Json
+  | .error e => Json.mkObj [("error", loadErrWJson e)]
+  | .ok t => Json.mkObj [("table", tableJson t)]
+
+def loadWTag : Except LoadErrW Table → String
   | .error (.parse (.syn _ e)) => "err-" ++ synName e
   | .error (.parse (.tooLong _)) => "err-tooLong"
-  | .error (.parse (.nonFinite _ _)) => "outside-nonfinite-weight"
-  | .error (.table e) => "err-" ++ errName e
+  | .error (.parse (.nonFinite _ _)) => "driver-nonfinite"   -- `parseW` never reports it
+  | .error (.cmd e) => "err-" ++ xerrName e
   | .ok t => if t.isEmpty then "empty" else "table"
 
 /-! ### decoding the implementation's dump -/
@@ -128,6 +162,42 @@ def specVerdict (env : Env) (defs : List RouteDef) (impl : Except Json Table) : 
     ((j.getObjValAs? String "kind").toOption == some "table" && (j.getObjValAs? String "what").toOption == some (errName e))
   | _, _ => false
 
+/-- the same for commands whose weight may be non-finite (`specRunW`) -/
+def specVerdictW (env : Env) (xs : List WDef) (impl : Except Json Table) : Bool :=
+  match specRunW env xs, impl with
+  | .ok S, .ok t => specMatches S (keysOf (xs.map (·.d))) t && t.all (fun kv => sortedDescB kv.2)
+  | .error e, .error j =>
+    (j.getStr?.toOption == some (xerrName e)) ||
+    ((j.getObjValAs? String "kind").toOption == some "table" && (j.getObjValAs? String "what").toOption == some (xerrName e))
+  | _, _ => false
+
+/-- the option-derived fields of every target of a dump are `derive` of that target's own options
+(`route.VerifDump` omits zero values) -/
+def derivedOfJson (j : Json) : Derived :=
+  { strip := getStrD j "strip", prepend := getStrD j "prepend", host := getStrD j "hostopt", auth := getStrD j "auth",
+    tlsSkip := (j.getObjValAs? Bool "tlsskipverify").toOption.getD false,
+    pxyProto := (j.getObjValAs? Bool "pxyproto").toOption.getD false,
+    redirect := (j.getObjValAs? Nat "redirect").toOption.getD 0 }
+
+def targetsOfDump (tj : Json) : List Json :=
+  match tj.getArr? with
+  | .error _ => []
+  | .ok hs => hs.toList.flatMap (fun h =>
+      match h.getObjValAs? (Array Json) "routes" with
+      | .error _ => []
+      | .ok rs => rs.toList.flatMap (fun r =>
+          match r.getObjValAs? (Array Json) "targets" with
+          | .error _ => []
+          | .ok ts => ts.toList))
+
+def derivedOK (impl : Json) : Bool :=
+  match impl.getObjVal? "table" with
+  | .error _ => true
+  | .ok tj => (targetsOfDump tj).all (fun j =>
+      match pairList ((j.getObjVal? "opts").toOption.getD .null) with
+      | .error _ => false
+      | .ok o => decide (derivedOfJson j = derive o))
+
 /-! ### c05.script -/
 
 def sameOutcome (a b : Json) : Bool :=
@@ -138,19 +208,21 @@ def scriptH : Handler := fun inp impl => do
   -- the harness echoes the definitions with the weights' exact rationals filled in (corpus and shrunk inputs
   -- carry only the decimal text)
   let defs ← match impl.getObjVal? "defs" with
-    | .ok _ => defsOf impl
-    | .error _ => defsOf inp
+    | .ok _ => wdefsOf impl
+    | .error _ => wdefsOf inp
   let env := envOf (oracleOf inp impl)
-  let res := newTable env defs
+  let res := newTableW env defs
   let m : Json := match res with
-    | .error e => Json.mkObj [("error", errName e)]
+    | .error e => Json.mkObj [("error", xerrName e)]
     | .ok t => Json.mkObj [("table", tableJson t)]
-  let agree := closeJson m impl
+  let okDerived := derivedOK impl
+  let agree := closeJson m impl && okDerived
   let tag := match res with
-    | .error e => "err-" ++ errName e
+    | .error e => "err-" ++ xerrName e
     | .ok t => if t.isEmpty then "empty" else "table"
+  let tag := if defs.any (·.bad) then tag ++ "+nonfinite" else tag
   let it ← implTable impl
-  let okSpec := specVerdict env defs it
+  let okSpec := specVerdictW env defs it
   let okDup := match impl.getObjVal? "dupLast" with
     | .ok d => sameOutcome d impl
     | .error _ => true
@@ -158,8 +230,8 @@ def scriptH : Handler := fun inp impl => do
     | .ok d => sameOutcome d impl
     | .error _ => true
   let tag := if !okSpec then tag ++ "/spec-machine" else if !okDup then tag ++ "/add-not-idempotent"
-    else if !okCase then tag ++ "/host-case-sensitive" else tag
-  return ({ model := m, agree, spec := okSpec && okDup && okCase,
+    else if !okCase then tag ++ "/host-case-sensitive" else if !okDerived then tag ++ "/derived-fields" else tag
+  return ({ model := m, agree, spec := okSpec && okDup && okCase && okDerived,
             nontrivial := (res.toOption.map (fun t => !t.isEmpty)).getD false, tag } : Verdict).toJson
 
 /-! ### c05.text -/
@@ -183,24 +255,27 @@ def textH : Handler := fun inp impl => do
   let env := envOf o
   let pf := pfOf o
   let text := fullText inp
-  let res := loadTable env pf text
-  let m := loadJson res
-  let tag := loadTag res
-  if tag == "outside-nonfinite-weight" then
-    -- Go accepts NaN/±Inf as a weight; tables with such weights are outside this model (see C04)
-    return ({ model := m, agree := true, spec := true, nontrivial := false, tag } : Verdict).toJson
-  let agree := closeJson m impl
+  -- total over float64 weights: a NaN/±Inf weight is a command the table code refuses (`validWeight`)
+  let res := loadTableW env pf text
+  let m := loadWJson res
+  let tag := loadWTag res
+  let okDerived := derivedOK impl
+  let agree := closeJson m impl && okDerived
   let it ← implTable impl
   -- spec: the parsed commands (model parser), run on the spec machine, vs the implementation's table
-  let okSpec := match parse pf text with
+  let pw := parseW pf text
+  let okSpec := (match pw with
     | .error e => (match it with
         | .error j => j == parseErrJson e
         | .ok _ => false)
-    | .ok defs => specVerdict env defs it
+    | .ok xs => specVerdictW env xs it) && okDerived
+  let tag := match pw with
+    | .ok xs => if xs.any (·.bad) then tag ++ "+nonfinite" else tag
+    | .error _ => tag
   let tag := if okSpec then tag else
     (match res with
       | .error (.parse (.tooLong _)) => "long-line-swallowed"
-      | _ => tag ++ "/spec-machine")
+      | _ => if !okDerived then tag ++ "/derived-fields" else tag ++ "/spec-machine")
   return ({ model := m, agree, spec := okSpec, nontrivial := tag != "empty", tag } : Verdict).toJson
 
 /-! ### c05.line -/
@@ -251,7 +326,18 @@ def lineH : Handler := fun inp impl => do
     | .error e => Json.mkObj [("error", parseErrJson e)]
     | .ok ds => Json.mkObj [("defs", Json.arr (ds.map defJson).toArray)]
   if tag == "outside-nonfinite-weight" then
-    return ({ model := m, agree := true, spec := true, nontrivial := false, tag } : Verdict).toJson
+    -- Go's Parse accepts the line: compare with the weight-blind parser, weights of flagged commands masked
+    let mask := fun (j : Json) => match j.getObjValAs? String "weight" with
+      | .ok w => if isNonFiniteStr w then j.setObjVal! "weight" "nonfinite" else j
+      | .error _ => j
+    let mw : Json := match parseW pf line with
+      | .error e => Json.mkObj [("error", parseErrJson e)]
+      | .ok xs => Json.mkObj [("defs", Json.arr (xs.map (fun x =>
+          if x.bad then (defJson x.d).setObjVal! "weight" "nonfinite" else defJson x.d)).toArray)]
+    let implDefs := (impl.getObjValAs? (Array Json) "defs").toOption.map (fun a => Json.arr (a.map mask))
+    let agree := (mw.getObjVal? "defs").toOption == implDefs &&
+                 (mw.getObjVal? "error").toOption == (impl.getObjVal? "error").toOption
+    return ({ model := mw, agree, spec := implDefsSane impl, nontrivial := true, tag := "nonfinite-weight" } : Verdict).toJson
   let agree := (m.getObjVal? "defs").toOption == (impl.getObjVal? "defs").toOption &&
                (m.getObjVal? "error").toOption == (impl.getObjVal? "error").toOption
   return ({ model := m, agree, spec := implDefsSane impl,
@@ -340,6 +426,83 @@ def roundtripH : Handler := fun _inp impl => do
   let tag := if !okRender then tag ++ "/render-differs" else if !okLoad then tag ++ "/reload-differs" else tag
   return ({ model := Json.mkObj [("text", str rendered), ("t2", m2)], agree := okRender && okLoad, spec, nontrivial, tag } : Verdict).toJson
 
+/-! ### c05.aliases — `route.ParseAliases` against the model and against `route.Parse` on the same text -/
+
+def namesJson (ns : List Str) : Json := Json.arr (ns.map str).toArray
+
+/-- the `register` options of the definitions the real `Parse` returned (options shipped sorted by key) -/
+def implRegisterNames (defs : Array Json) : List Str :=
+  defs.toList.filterMap (fun d =>
+    match pairList ((d.getObjVal? "opts").toOption.getD .null) with
+    | .ok o => o.lookup kRegister
+    | .error _ => none)
+
+def aliasesH : Handler := fun inp impl => do
+  let o := oracleOf inp impl
+  let pf := pfOf o
+  let text := fullText inp
+  let res := parseAliases pf text
+  let m : Json := match res with
+    | .error e => Json.mkObj [("error", parseErrJson e)]
+    | .ok ns => Json.mkObj [("names", namesJson ns)]
+  let agree := (m.getObjVal? "names").toOption == (impl.getObjVal? "names").toOption &&
+               (m.getObjVal? "error").toOption == (impl.getObjVal? "error").toOption
+  -- spec, on the implementation's two outputs: what `Parse` accepts `ParseAliases` accepts, with the register
+  -- options of those very definitions; a syntax error is the same error on the same line
+  let p := objOr impl "parse"
+  let (spec, cls) : Bool × String := match p.getObjValAs? (Array Json) "defs" with
+    | .ok defs => ((impl.getObjVal? "names").toOption == some (namesJson (implRegisterNames defs)), "")
+    | .error _ =>
+      match p.getObjVal? "error" with
+      | .ok e =>
+        if (e.getObjValAs? String "kind").toOption == some "syn" then
+          ((impl.getObjVal? "error").toOption == some e, "")
+        else (true, "+parse-" ++ ((e.getObjValAs? String "kind").toOption.getD "?"))
+      | .error _ => (false, "+no-parse-result")
+  let tag := (match res with
+    | .error (.syn _ e) => "err-" ++ synName e
+    | .error (.tooLong _) => "err-tooLong"
+    | .error (.nonFinite _ _) => "driver-nonfinite"
+    | .ok [] => "no-names"
+    | .ok ns => if ns.any (·.isEmpty) then "names+empty" else "names") ++ cls
+  let tag := if spec then tag else tag ++ "/differs-from-parse"
+  return ({ model := m, agree, spec, nontrivial := tag != "no-names", tag } : Verdict).toJson
+
+/-! ### c05.api — the admin endpoint `/api/routes` on a reachable table -/
+
+def apiEntryJson (a : ApiRoute) : Json :=
+  Json.mkObj [("service", str a.service), ("host", str a.host), ("path", str a.path), ("src", str a.src),
+    ("dst", str a.dst), ("opts", Json.arr (a.opts.map (fun kv => Json.arr #[str kv.1, str kv.2])).toArray),
+    ("weight", ratJson a.weight), ("tags", Json.arr (a.tags.map str).toArray)]
+
+def apiH : Handler := fun _inp impl => do
+  let t1j := objOr impl "t"
+  match t1j.getObjVal? "table" with
+  | .error _ =>
+    return ({ model := Json.null, agree := true, spec := true, nontrivial := false, tag := "source-rejected" } : Verdict).toJson
+  | .ok tj =>
+  let t ← tableOfJson tj
+  let raw := strOfJson impl "raw"
+  let mraw := apiRaw t
+  let okRaw := mraw == raw
+  let mlist := Json.arr ((apiRoutes t).map apiEntryJson).toArray
+  let ilist := (impl.getObjVal? "list").toOption.getD (Json.arr #[])
+  let okList := closeJson mlist ilist && (match ilist.getArr? with
+    | .ok a => a.size == (apiRoutes t).length
+    | .error _ => false)
+  -- spec on the implementation's outputs: NewTable reads the `?raw` body exactly as it reads String(), and the
+  -- listing enumerates the targets of the dump
+  let okReload := sameOutcome (objOr impl "rawReload") (objOr impl "strReload")
+  let okStatus := (impl.getObjValAs? Nat "status").toOption == some 200 &&
+    (impl.getObjValAs? Nat "rawStatus").toOption == some 200
+  let n := (apiRoutes t).length
+  let tag := (if n == 0 then "empty" else if n == 1 then "one" else "many") ++
+    (if !okRaw then "/raw-differs" else if !okList then "/listing-differs" else if !okReload then "/raw-reload-differs"
+     else if !okStatus then "/status" else "")
+  return ({ model := Json.mkObj [("raw", str mraw), ("list", mlist)], agree := okRaw && okList,
+            spec := okReload && okList && okStatus, nontrivial := n > 1, tag } : Verdict).toJson
+
 def streams : List (String × Handler) :=
-  [("c05.script", scriptH), ("c05.text", textH), ("c05.line", lineH), ("c05.roundtrip", roundtripH)]
+  [("c05.script", scriptH), ("c05.text", textH), ("c05.line", lineH), ("c05.roundtrip", roundtripH),
+   ("c05.aliases", aliasesH), ("c05.api", apiH)]
 end Fabio.Driver.C05
